@@ -23,10 +23,11 @@ structure SoftP where
   wasCancelled : Bool
   endCb : CbSpec
   cancelCb : CbSpec
+  nSaw : Nat
 deriving DecidableEq
 
 def _root_.Taskpool.PTask.soft (k : PTask) : SoftP :=
-  ⟨k.phase, k.released, k.nCC, k.nEC, k.wasCancelled, k.endCb, k.cancelCb⟩
+  ⟨k.phase, k.released, k.nCC, k.nEC, k.wasCancelled, k.endCb, k.cancelCb, k.nSaw⟩
 
 /-- the life cycle of one task, as far as callbacks are concerned (`lost` = the pool's ghost bit, DESIGN §4.3) -/
 structure OKs (lost : Bool) (s : SoftP) : Prop where
@@ -44,6 +45,8 @@ structure OKs (lost : Bool) (s : SoftP) : Prop where
           s.released = true ∧ s.nEC = (if s.endCb = .none then 0 else 1) ∧
           (s.wasCancelled = true → s.nCC = (if s.cancelCb = .none then 0 else 1)) ∧
           (s.wasCancelled = false → s.nCC = 0)
+  s1 : s.nSaw ≤ 1
+  s0 : (s.phase = .created ∨ s.phase = .inWorker) → s.nSaw = 0
 
 def LifeOK (p : Pool) : Prop := ∀ (t : Nat) (tk : PTask), p.tasks[t]? = some tk → OKs p.lost tk.soft
 
@@ -248,17 +251,18 @@ theorem LifeOK.lostMono {p q : Pool} (hl : LifeOK p) (ht : q.tasks = p.tasks) (h
   rw [ht] at h
   have h1 := hl t tk h
   cases hq : q.lost with
-  | true => exact ⟨h1.e0, h1.e1, h1.c1, h1.c0, h1.cw, h1.cc, h1.ec, h1.ord, h1.cn, h1.en, fun _ hl' => by cases hl'⟩
+  | true => exact ⟨h1.e0, h1.e1, h1.c1, h1.c0, h1.cw, h1.cc, h1.ec, h1.ord, h1.cn, h1.en, (fun _ hl' => by cases hl'), h1.s1, h1.s0⟩
   | false =>
     cases hp : p.lost with
     | true => rw [hm hp] at hq; cases hq
     | false => rw [hp] at h1; exact h1
 
 theorem oks_new (lost : Bool) (ph : Phase) (ecb ccb : CbSpec) (hph : ph = .created) :
-    OKs lost ⟨ph, false, 0, 0, false, ecb, ccb⟩ := by
+    OKs lost ⟨ph, false, 0, 0, false, ecb, ccb, 0⟩ := by
   subst hph
   exact ⟨fun _ => rfl, by simp, by simp, fun _ => ⟨rfl, rfl⟩, fun h => by simp at h, fun h => by simp at h,
-    fun h => by simp at h, fun h => by simp at h, fun _ => rfl, fun _ => rfl, fun h => by simp at h⟩
+    fun h => by simp at h, fun h => by simp at h, fun _ => rfl, fun _ => rfl, fun h => by simp at h, by simp,
+    fun _ => rfl⟩
 
 theorem Tame.life {p q : Pool} (h : Tame p q) (hl : LifeOK p) : LifeOK q := by
   intro t tk' ht
